@@ -165,3 +165,11 @@ Section no_panic.
   Qed.
   Transparent zero mark ZFUEL.
 End no_panic.
+
+(* F-C02-1 on the model: an array filled into a nil slice panics on its first element (an infallible element conversion) *)
+Lemma array_into_nil_slice_panics e M F f cx el v vs st :
+  eval_a e M F (S (S f)) cx (AList true el (ASet PId)) (VArr (v :: vs)) VNil st = Panicked.
+Proof.
+  rewrite eval_a_S. cbn [each_assign touches]. unfold store_into_nil. rewrite eval_a_S.
+  destruct f as [|f]; [reflexivity|]. rewrite eval_v_S. destruct (plain v); reflexivity.
+Qed.
